@@ -205,6 +205,45 @@ def run(ctx):
                              observed=dl.tolist(), expected=d0.tolist())
       ctx.sample(dict(estimator=name, probes=idx[:2].tolist(), distances=dref[:2].tolist()), limit=3)
 
+  # ---- Covariance on rank-deficient data (a duplicated / collinear / constant feature, or fewer samples than features), probed
+  # with FRESH query pairs that leave the span of the training data: the pseudo-inverse is the Moore-Penrose one, which is
+  # equivariant under orthogonal maps, translations and sample permutations (any other generalised inverse agrees with it
+  # only inside the span)
+  from metric_learn import Covariance
+  for rep in range(12 if thorough else 4):
+    d = int(rng.integers(3, 6))
+    kind = rep % 4
+    n = d - 1 if kind == 3 else int(rng.integers(2 * d, 3 * d))
+    X = np.round(rng.standard_normal((n, d)) * 8) / 4
+    if kind == 0:
+      X[:, 1] = X[:, 0]
+    elif kind == 1:
+      X[:, 2] = 2 * X[:, 0] - X[:, 1]
+    elif kind == 2:
+      X[:, d - 1] = 1.5
+    Xq = np.round(rng.standard_normal((8, d)) * 8) / 4
+    qi = np.array([[0, 1], [2, 3], [4, 5], [6, 7], [0, 7]])
+    Q = rotation(rng, d)
+    t = np.round(rng.standard_normal(d) * 4)
+    perm = rng.permutation(n)
+    ctx.count('covariance_rank_deficient', 1)
+    ctx.hist('covariance_rank_deficient', ['duplicated feature', 'collinear feature', 'constant feature', 'fewer samples than features'][kind])
+    try:
+      with warnings.catch_warnings():
+        warnings.simplefilter('ignore')
+        d0 = Covariance().fit(X).pair_distance(Xq[qi])
+        dq = Covariance().fit(X.dot(Q)).pair_distance(Xq.dot(Q)[qi])
+        dt = Covariance().fit(X[perm] + t).pair_distance((Xq + t)[qi])
+    except Exception as ex:
+      ctx.fail_input('rotation', 'Covariance on rank-deficient data raises ' + type(ex).__name__, dict(X=X.tolist()), observed=str(ex)[:200])
+      continue
+    if not close(dq, d0, 1e-6):
+      ctx.fail_input('rotation', 'Covariance (rank-deficient data, fresh queries): mapping all points through an orthogonal Q does not map M to Q^T M Q',
+                     dict(estimator='Covariance', X=X.tolist(), Q=Q.tolist(), queries=Xq.tolist()), observed=dq.tolist(), expected=d0.tolist())
+    if not close(dt, d0, 1e-6):
+      ctx.fail_input('translation', 'Covariance (rank-deficient data, fresh queries): translating and permuting the samples changes the learned distances',
+                     dict(estimator='Covariance', X=X.tolist(), t=t.tolist(), queries=Xq.tolist()), observed=dt.tolist(), expected=d0.tolist())
+
 
 def replay(payload):
   print('replay: re-run ./check C19 with VERIF_SEED=%s' % payload.get('seed'))
